@@ -562,11 +562,31 @@ def _chain_by_evaluation(chk: Check, cctx):
         inputs_done = 0
         rounds_all = []
         cur = list(got)
+        # other containers the walk fills (a `seen` set for the cycle test): their contents follow the adds in the same way
+        others = {}
+        for n_ in ast.walk(loop):
+            if isinstance(n_, ast.Call) and isinstance(n_.func, ast.Attribute) and n_.func.attr in ("add", "append") and isinstance(n_.func.value, ast.Name) and n_.args:
+                tt = R.expr(cctx, n_.func.value, cctx.cfg.node_for(n_))
+                if tt == L or tt in others:
+                    continue
+                init_ = None
+                for a_ in _own_nodes(cctx.func):
+                    if isinstance(a_, ast.Assign) and len(a_.targets) == 1 and isinstance(a_.targets[0], ast.Name) and a_.targets[0].id == n_.func.value.id \
+                            and not any(a_ is x for x in ast.walk(loop)):
+                        v_ = a_.value
+                        if isinstance(v_, (ast.Set, ast.List, ast.Tuple)):
+                            init_ = [S.ev(R.expr(cctx, e_, cctx.cfg.node_of.get(a_)), v0) for e_ in v_.elts]
+                        elif isinstance(v_, ast.Call) and isinstance(v_.func, ast.Name) and v_.func.id in ("set", "list") and not v_.args:
+                            init_ = []
+                if init_ is not None:
+                    others[tt] = init_
         # re-run the simulation with a growing prefix so that the override of the list term follows the appends
         n_rounds = len(parents) + 2
         seq = []
         for _ in range(n_rounds):
-            seq.append({L: tuple(cur)})
+            step_ov = {L: tuple(cur)}
+            step_ov.update({t_: tuple(c_) for t_, c_ in others.items()})
+            seq.append(step_ov)
             rounds = simulate_loop(chk, cctx, loop, carried, seq, base=base, call_models=models)
             if len(rounds) < len(seq):
                 break
@@ -577,6 +597,11 @@ def _chain_by_evaluation(chk: Check, cctx):
             for call, v in appended_in_round(chk, cctx, last):
                 if R.expr(cctx, call.func.value, cctx.cfg.node_for(call)) == L:
                     cur.append(v)
+            for meth in ("add", "append"):
+                for call, v in appended_in_round(chk, cctx, last, method=meth):
+                    tt = R.expr(cctx, call.func.value, cctx.cfg.node_for(call))
+                    if tt in others:
+                        others[tt].append(v)
             if last[2][0] not in ("back", "continue") and not (last[2][0] == "left" and last[2][1] is cctx.cfg.node_of[loop]):
                 break
         if not state_ok:
